@@ -560,6 +560,30 @@ pub fn walks(prop: &str, seed: u64, count: usize, nsyms: usize, rep: &mut Report
                 c.cuts.sort();
             }
             let ok = check_case(&c, prop, rep);
+            // the sink may accept only part of every write (pipe, socket): the delivered bytes must still be exact
+            if ok && api_name != "stream" && i % 3 == 0 {
+                let data = c.bytes();
+                let e = c.expect(&data);
+                let mut sink = crate::io::FaultSink { short: [1usize, 7, 1000][i / 3 % 3], ..Default::default() };
+                let mut rd = &data[..];
+                let r = crate::io::catch(|| {
+                    if api_name == "raw" {
+                        use lzma_rs::decompress::raw::{LzmaDecoder, LzmaParams, LzmaProperties};
+                        let mut d = LzmaDecoder::new(LzmaParams::new(LzmaProperties { lc: props.lc, lp: props.lp, pb: props.pb }, c.dict, c.raw_size), None).map_err(|e| format!("{:?}", e))?;
+                        d.decompress(&mut rd, &mut sink).map_err(|e| format!("{:?}", e))
+                    } else {
+                        lzma_rs::lzma_decompress_with_options(&mut rd, &mut sink, &api::options(c.opt, None, false)).map_err(|e| format!("{:?}", e))
+                    }
+                });
+                let good = matches!(r, crate::io::Caught::Done(Ok(()))) && sink.data == e.out;
+                rep.eval(hash_of(&(hex(&data[..data.len().min(64)]), api_name, "short-sink", i)), true);
+                if e.v == Exp::Ok && !good {
+                    let mut cj = serde_json::to_value(&c).unwrap();
+                    cj["kind"] = json!("lzma");
+                    cj["sink"] = json!("accepts at most a few bytes per write call");
+                    rep.violation(prop, format!("with a sink that accepts only part of each write the delivered bytes are not the stream's output ({} of {} bytes)", sink.data.len(), e.out.len()), cj);
+                }
+            }
             if ok && i < 2 && api_name == "raw" {
                 rep.sample(json!({"origin": c.origin, "props": props, "dict": dict, "nsyms": prog.len(), "out_len": out_len, "first_syms": &prog[..prog.len().min(6)]}));
             }
